@@ -1,11 +1,40 @@
 (* C03 -- slab pool: policy protocol -- map/unmap pairing, page accounting, poisoning. *)
-From Coq Require Import List NArith Bool.
-From FV Require Import Slab.SlabModel Slab.SlabProto.
+From Coq Require Import List NArith Bool Permutation.
+From FV Require Import Slab.SlabModel Slab.SlabInv Slab.SlabProto Slab.SlabC01 Slab.SlabLog.
 Import ListNotations.
 Local Open Scope N_scope.
 
-(* free / deallocate, in EVERY state: an unmap call names a region that is currently mapped, with exactly the base and
-   the length of the map() answer that produced it (the whole reservation, not the frame's payload). *)
+(* Every admissible history, after every prefix:
+   - the map/unmap sub-log passes the protocol checker [proto]: every unmap(b,l) is EXACTLY an earlier successful map
+     answer (b, l) that has not been unmapped before (base and the length map was asked for), and the set of
+     outstanding regions it computes is the set of regions the state holds;
+   - used_pages = sum over slabs of (length+page)/page + sum over live large frames of (length+page)/page
+     (no drift), and the decrement of the next large free never underflows;
+   - when no block served from a large frame is live, exactly the slab reservations stay mapped. *)
+Theorem C03_map_unmap_protocol :
+  forall (c : cfg) (ops : list op),
+    cfg_ok c = true -> policy_ok c ops -> api_ok c ops -> history_short ops ->
+    forall pre, prefix pre ops ->
+    let s := run c pre in
+    (exists m, proto [] (log c pre) = Some m /\ Permutation m (mapped s))
+    /\ used s = pages c s
+    /\ (forall x, In x (larges s) -> large_pages c x <= used s)
+    /\ ((forall b x, In b (live s) -> In x (larges s) -> bk_p b <> lg_addr c x) ->
+        larges s = [] /\ mapped s = map sl_region (slabs s)).
+Proof. exact C03_protocol_main. Qed.
+Print Assumptions C03_map_unmap_protocol.
+
+(* ... and at the moment of an unmap no block that stays live intersects the region given back. *)
+Theorem C03_unmap_never_under_live_block :
+  forall (c : cfg) (ops : list op) (o : op),
+    cfg_ok c = true -> policy_ok c (ops ++ [o]) -> api_ok c (ops ++ [o]) -> history_short (ops ++ [o]) ->
+    let s := run c ops in
+    forall b0 l0, In (CUnmap b0 l0) (cbs_of (step c s o)) ->
+      forall b', In b' (live (st_of (step c s o))) -> disjoint (bk_p b') (bk_size0 b') b0 l0.
+Proof. exact C03_unmap_safe_main. Qed.
+Print Assumptions C03_unmap_never_under_live_block.
+
+(* state-independent: free / deallocate in EVERY state name a currently mapped region in an unmap call *)
 Theorem C03_free_unmaps_only_mapped_partial :
   forall c s o b l,
     (exists p, o = Free p) \/ (exists p n, o = Dealloc p n) ->
@@ -13,11 +42,23 @@ Theorem C03_free_unmaps_only_mapped_partial :
 Proof. exact step_free_unmaps_mapped. Qed.
 Print Assumptions C03_free_unmaps_only_mapped_partial.
 
+(* NOT PROVED (kept visible): C03_poison_protocol -- with poison = true and fresh mappings fully poisoned, folding the
+   CPoison/CUnpoison/CUnpoisonExpand calls of the log over a byte shadow leaves (a) the requested bytes of every live
+   block unpoisoned, (b) a freed small block poisoned except its first 8 bytes, (c) every CAccess range unpoisoned at
+   the time of the access.  The callback log itself (with arguments) and the CAccess-free policy calls are compared with
+   the real code on every run, and the harness evaluates (a)-(c) on the real code with its own byte shadow and ASan;
+   what is missing is the Coq proof that the model's log has properties (a)-(c).  See comp/slab/NOTES.md. *)
+
 Definition c03_cfg : cfg := mkCfg 4096 4096 4096 4 false true 40 104.
-Example C03_unmap_nonvacuous :
-  let s := run c03_cfg [Alloc 5000 (MapRet 20480)] in
-  mapped s = [(20480, 16384)]
-  /\ cbs_of (step c03_cfg s (Free 24576)) =
-     [CAccess false 20480 40; CPoison 20480 40; CPoison 24576 8192; CUnmap 20480 16384]
-  /\ mapped (st_of (step c03_cfg s (Free 24576))) = [] /\ used (st_of (step c03_cfg s (Free 24576))) = 0.
-Proof. vm_compute. repeat split; reflexivity. Qed.
+Definition c03_ops : list op :=
+  [Alloc 5000 (MapRet 20480); Alloc 24 (MapRet 65536); Alloc 9000 (MapRet 131072); Free 24576;
+   Realloc 135168 20000 (MapRet 262144); Free 266240].
+Example C03_hyps_satisfiable :
+  cfg_ok c03_cfg = true /\ policy_ok c03_cfg c03_ops /\ api_ok c03_cfg c03_ops /\ history_short c03_ops
+  /\ proto [] (log c03_cfg c03_ops) = Some [(65536, 8192)]
+  /\ mapped (run c03_cfg c03_ops) = [(65536, 8192)]
+  /\ used (run c03_cfg c03_ops) = 1
+  /\ filter is_mu (log c03_cfg c03_ops) =
+     [CMap 16384 0 20480; CMap 8192 0 65536; CMap 20480 0 131072; CUnmap 20480 16384;
+      CMap 28672 0 262144; CUnmap 131072 20480; CUnmap 262144 28672].
+Proof. unfold policy_ok, api_ok, history_short. vm_compute. repeat split; reflexivity. Qed.
